@@ -4904,6 +4904,15 @@ class ParseCtx:
         else:
             raise IllegalParseTree("Only string and raw outputs can be appended to, did you mean =?", stmt)
 
+    def _check_single_else(self, clauses: List[lark.Tree]):
+        """
+        Only one clause of a case can be the one taken when nothing matches
+        """
+
+        else_clauses = [clause for clause in clauses if any(isinstance(x, lark.Tree) and x.data == "else_predicate" for x in clause.children)]
+        if len(else_clauses) > 1:
+            raise IllegalParseTree("Case statement has more than one else clause", else_clauses[1])
+
     def _parse_case_clause(self, clause: lark.Tree):
         result_set = set()
         target_dfa = None
@@ -5005,11 +5014,13 @@ class ParseCtx:
             return ProgramData.imbue(self._parse_assign_stmt(stmt, stmt.data == "append_stmt"), DTAG.SOURCE_LINE, stmt.meta.line, DTAG.SOURCE_COLUMN, stmt.meta.column)
         elif stmt.data == "case_stmt":
             # Find all of the matches
+            self._check_single_else(stmt.children)
             return ProgramData.imbue(ProgramData.imbue(CaseNode({k: v for k, v in (self._parse_case_clause(x) for x in stmt.children)}), 
                 DTAG.SOURCE_LINE, stmt.meta.line),
                 DTAG.SOURCE_COLUMN, stmt.meta.column
             )
         elif stmt.data == "greedy_case_stmt":
+            self._check_single_else([clause for block in stmt.children for clause in ([block] if block.data == "case_clause" else block.children[1:])])
             case_blocks = {}
             priorities = {}
             for block in stmt.children:
